@@ -23,6 +23,7 @@ import sys
 import ast
 import collections
 import functools
+import threading
 import types
 
 from sigtools import _signatures, _util, _verif
@@ -504,7 +505,28 @@ class cleanup_functools_wrapper(object):
             _verif.emit('WindowExit', obj=id(self.func))
 
 
+class _InProgress(threading.local):
+    def __init__(self):
+        self.funcs = set()
+
+_in_progress = _InProgress()
+
+
 def autoforwards_function(func, args, kwargs):
+    # a function that forwards to itself (or to a function that forwards
+    # back to it) tells nothing about its own parameters
+    key = (id(func), tuple(id(arg) for arg in args),
+           tuple(sorted((name, id(arg)) for name, arg in kwargs.items())))
+    if key in _in_progress.funcs:
+        raise UnknownForwards
+    _in_progress.funcs.add(key)
+    try:
+        return _autoforwards_function(func, args, kwargs)
+    finally:
+        _in_progress.funcs.discard(key)
+
+
+def _autoforwards_function(func, args, kwargs):
     with cleanup_functools_wrapper(func):
         try:
             sig = _signatures.signature(func)
